@@ -98,6 +98,13 @@ CHECKS = {
         technique=MC_TECH + " (all object chains x all object/type functions, differential against reference definitions)",
         design="DESIGN.md §4 C13",
     ),
+    "C16": dict(
+        category="exploration",
+        text="A corpus built to contain an enumeration or a choice (field listings in every declaration order, suggestion lists with equally similar candidates, several independent failures, duplicate keys, top-level calls with several missing/unknown arguments, recursion at the frame limit, all 2-layer inheritance chains over 5 member kinds) evaluated in a fresh thread per hash salt under every salt (32 quick / 256 thorough) x pre-interned pool {0,1,100,10000}, and after every history (<= 2 quick / 3 thorough) over {success, runtime error, frame-limit error, failing assert, object assert failure, large allocation} on the same and on a fresh State: byte-identical result / CompactFormat error text. The real executable is run 3 times per program: identical stdout, stderr, exit code.",
+        note="Trusted: the hash-salt seam (hooks) reaches every map keyed by interned strings; the evidence reports the number of distinct probe-map iteration orders (must exceed 1).",
+        technique=MC_TECH + " (explicit enumeration of hash orders via a salt seam x address layouts x evaluation histories, differential against the first observation; repeated fresh processes)",
+        design="DESIGN.md §4 C16",
+    ),
     "C17": dict(
         category="exploration",
         text="Every token sequence / character string of the C06 sequence spaces, a 13-item unicode/CRLF/comment alphabet and the repository inputs: lexer tokens tile the input on character boundaries, the syntax tree prints back the input, every span of the evaluator's tree is a character range covering what it labels. Every construct of 12 (error, assert, std.trace, undefined variable, missing field, missing argument, stray bracket; one- and two-line spellings) planted after every sequence of <= k preceding lines (ASCII, 2/3/4-byte characters, non-ASCII comment, blank, CRLF), behind every same-line prefix (none, spaces, tab, ASCII code, non-ASCII code) and before every trailer: line of the real CompactFormat trace / syntax error location / StdTracePrinter output (fd 2 captured) equals the planted line; columns equal the stand-alone location shifted by the prefix whenever the prefix is ASCII.",
